@@ -81,7 +81,7 @@ HELPERS = {
     "forall": forall, "forall2": forall2, "exists": exists, "iff": lambda a, b: bool(a) == bool(b),
     "seq_eq": seq_eq, "is_none": lambda v: v is None, "opt_val": lambda v: v, "sqrt": math.sqrt,
     "real": float, "floor": math.floor, "trunc": int, "absr": abs, "sq": lambda v: v * v,
-    "min2": min, "max2": max, "Sum": Sum, "len": len, "abs": abs, "min": min, "max": max, "int": int,
+    "min2": min, "max2": max, "Sum": Sum, "SumRange": lambda seq, lo, hi: sum(seq[int(lo):int(hi)]), "len": len, "abs": abs, "min": min, "max": max, "int": int,
     "float": float, "True": True, "False": False, "None": None, "np": np, "math": math,
 }
 
